@@ -91,7 +91,7 @@ def inconclusive(chk, what, detail=""):
 # classes with an in-place re-parameterisation (event sN:P): RNSsystem::setPrimes, Modular<T>::read(istream&), Modular<Log16>::read
 # (Modular<int8_t|uint8_t>::read extracts the modulus into an unsigned char, i.e. reads ONE CHARACTER: "(z, 11)" gives the ring modulo '1' = 49 --
 #  an input-format defect outside this property; the object it leaves is consistent, so the 8-bit rings are not driven through read)
-MUTABLE = ["ModularExtended<double>", "ModularExtended<float>", "Modular<int16_t>", "Modular<uint16_t>", "Modular<int32_t>", "Modular<uint32_t>", "Modular<int64_t>", "Modular<uint64_t>", "Modular<float>", "Modular<double>",
+MUTABLE = ["GFqDom<int64_t>", "GFqDom<int32_t>", "ModularExtended<double>", "ModularExtended<float>", "Modular<int16_t>", "Modular<uint16_t>", "Modular<int32_t>", "Modular<uint32_t>", "Modular<int64_t>", "Modular<uint64_t>", "Modular<float>", "Modular<double>",
            "Modular<Integer>", "Modular<Log16>", "RNSsystem<Integer,Modular<double>>"]
 MUT_DIRECTED = [
     "c0:A s0:B", "c0:A s0:B s0:A", "c0:B s0:C s0:B s0:C", "c0:A s0:D s0:A", "c0:A s0:A", "c0:C s0:B s0:C",
